@@ -121,11 +121,12 @@ def leak_check(prefix, grace=2.0):
 
 
 def ids_of(chunks):
-    return [int(g.split(b"id: ")[1].split(b"\n")[0]) for g in chunks if not g.startswith(b":")]
+    """ids of the delivered events (pings and field-less events carry none)"""
+    return [int(g.split(b"id: ")[1].split(b"\n")[0]) for g in chunks if not g.startswith(b":") and b"id: " in g]
 
 
 # =====================================================================================  WSGI rendezvous
-def rendezvous(ctx, n, k, state, then, ping):
+def rendezvous(ctx, n, k, state, then, ping, empties=False):
     """n items; the consumer reads k items, then closes. state of producer/relay at close:
     'exhausted' | 'midstep' (producer inside its step; then: yield/return/raise once its gate opens) | 'ahead' (next item ready, relay blocked in put)
     k = -1: close before the first next(); k = n+1: read to the end, then close."""
@@ -133,7 +134,7 @@ def rendezvous(ctx, n, k, state, then, ping):
     pool, prefix = new_pool()
     gate = threading.Event()
     marks = {"cleanup": 0, "entered": 0, "yielded": []}
-    case = {"n": n, "close_after": k, "state": state, "then": then, "ping": ping}
+    case = {"n": n, "close_after": k, "state": state, "then": then, "ping": ping, "field_less_events": empties}
 
     def gen():
         marks["entered"] += 1
@@ -145,6 +146,8 @@ def rendezvous(ctx, n, k, state, then, ping):
                         return
                     if then == "raise":
                         raise KeyError("producer")
+                if empties:
+                    yield {}  # a legal event without any field (ServerSentEvent())
                 marks["yielded"].append(i)
                 yield {"data": str(i), "id": str(i)}
             if state == "midstep" and k >= n:
@@ -153,6 +156,8 @@ def rendezvous(ctx, n, k, state, then, ping):
                     raise KeyError("producer")
         finally:
             marks["cleanup"] += 1
+            if then == "cleanup-raises":
+                raise KeyError("producer")  # the producer's own cleanup fails
 
     resp = wsgi.SendEventResponse(gen(), ping_interval=ping)
     it = iter(resp(drivers.to_environ(drivers.Req()), lambda s, h, e=None: None))
@@ -162,7 +167,7 @@ def rendezvous(ctx, n, k, state, then, ping):
         try:
             if k >= 0:
                 want = min(k, n)
-                while len([g for g in got if not g.startswith(b":")]) < want:
+                while len([g for g in got if b"id: " in g]) < want:
                     got.append(next(it))
                 if k > n:
                     for c in it:
@@ -226,7 +231,7 @@ def rendezvous(ctx, n, k, state, then, ping):
         probs.append(("producer-driven-beyond-its-next-step-after-close", f"{extra_steps} further items were pulled from the producer after close() began"))
     exc = res.get("exc")
     raises = then == "raise" and state == "midstep"
-    if exc is not None and not (isinstance(exc, KeyError) and raises):
+    if exc is not None and not (isinstance(exc, KeyError) and (raises or then == "cleanup-raises")):
         probs.append((f"unexpected-exception-{type(exc).__name__}", repr(exc)))
     if raises and started and 0 <= k and exc is None and marks["entered"]:
         probs.append(("producer-exception-swallowed", ""))
@@ -317,7 +322,10 @@ def yield_injection(ctx, rng, inj, sigs):
     raise_at = rng.choice([None, None, None, rng.randrange(0, 5)])
     ping = rng.choice([0.002, 5])
     marks = {"entered": 0, "cleanup": 0, "yielded": []}
-    case = {"n": n, "close_after": k, "delays": delays, "raise_at": raise_at, "ping": ping, "explorer": "yield-injection"}
+    empties = rng.random() < 0.25
+    cleanup_raises = rng.random() < 0.15
+    case = {"n": n, "close_after": k, "delays": delays, "raise_at": raise_at, "ping": ping, "explorer": "yield-injection", "field_less_events": empties,
+            "cleanup_raises": cleanup_raises}
 
     def gen():
         marks["entered"] += 1
@@ -327,10 +335,14 @@ def yield_injection(ctx, rng, inj, sigs):
                     time.sleep(delays[i])
                 if raise_at == i:
                     raise KeyError("p")
+                if empties:
+                    yield {}
                 marks["yielded"].append(i)
                 yield {"data": "x", "id": str(i)}
         finally:
             marks["cleanup"] += 1
+            if cleanup_raises:
+                raise KeyError("p")
     resp = wsgi.SendEventResponse(gen(), ping_interval=ping)
     itr = iter(resp(drivers.to_environ(drivers.Req()), lambda s, h, e=None: None))
     got, out = [], {}
@@ -380,7 +392,7 @@ def yield_injection(ctx, rng, inj, sigs):
     if extra_steps > 2:
         ctx.violation("wsgi-sse|producer-driven-beyond-its-next-step-after-close|yield-injection", case, f"{extra_steps} further items pulled after close() began")
     exc = out.get("exc")
-    if exc is not None and not (isinstance(exc, KeyError) and raise_at is not None and raise_at < n):
+    if exc is not None and not (isinstance(exc, KeyError) and (cleanup_raises or (raise_at is not None and raise_at < n))):
         ctx.violation(f"wsgi-sse|unexpected-exception-{type(exc).__name__}|yield-injection", case, repr(exc))
     with inj.lock:
         sigs.add(hash(tuple(inj.trace)))
@@ -594,11 +606,15 @@ def run(ctx):
                         continue  # 'exhausted' = close before start, or after the producer has finished
                     scen.append((n, k, state, then, ping))
     scen += [(10, 1, "ahead", "yield", 5), (10, 2, "midstep", "yield", 5), (12, 0, "ahead", "yield", 0.02), (10, 3, "midstep", "yield", 0.02)]
+    # field-less events in the stream, and a producer whose own cleanup raises
+    for n, k in ((2, 1), (3, 1), (3, 2), (2, 3), (3, 0)):
+        scen += [(n, k, "exhausted" if k > n else "ahead", "yield", 5, True), (n, min(k, n - 1), "midstep", "yield", 5, True),
+                 (n, min(k, n - 1), "midstep", "cleanup-raises", 5), (n, min(k, n - 1), "ahead", "cleanup-raises", 0.02)]
     for i, sc in enumerate(scen):
         if not ctx.mine(i):
             continue
         rendezvous(ctx, *sc)
-        n, k, state, then, ping = sc
+        n, k, state, then, ping = sc[:5]
         ctx.case_enum(0 <= k <= n and state != "exhausted")
         if ctx.violations and any(key.startswith("wsgi-sse|deadlock") for key in ctx.violations) and ctx.counters.get("deadlocks-seen", 0) >= 3:
             break
@@ -634,7 +650,7 @@ def replay(ctx, case):
     elif case.get("class") == "wsgi.StreamResponse":
         wsgi_stream_response(ctx, case["n"], case["close_after"], case["raise_at"])
     elif "state" in case:
-        rendezvous(ctx, case["n"], case["close_after"], case["state"], case["then"], case["ping"])
+        rendezvous(ctx, case["n"], case["close_after"], case["state"], case["then"], case["ping"], case.get("field_less_events", False))
     else:
         print("yield-injection scenarios are PRNG/scheduler dependent: best-effort replay by re-running the tier with the recorded VERIF_SEED")
     ctx.case(1)
